@@ -301,13 +301,19 @@ def r07_3_5(ctx, run, rule3='R07.3', rule5='R07.5'):
         "jsonpath::selector::Selector::<'a>::build_predicate_result", "jsonpath::selector::Selector::<'a>::build_values",
         "jsonpath::selector::Selector::<'a>::build_scalar_array",
     }
+    def only_called_from_known(p, seen=()):
+        callers = [c for c, tg in ctx.cg.edges.items() if p in tg and c != p]
+        return bool(callers) and all(c in known or (c not in seen and f.bodies.get(c) is not None and f.bodies[c].vis in ('private', 'closure') and only_called_from_known(c, seen + (p,)))
+                                     for c in callers)
     for p, kinds in sorted(hw.items()):
         b = f.bodies[p]
         if p in known:
             run.proved(rule5, p, 'header-writer', f'writes {sorted(kinds)} header(s); covered by the length/key/re-wrap rules', f'{b.file}:{b.line}')
+        elif b.vis in ('private', 'closure') and only_called_from_known(p):
+            run.proved(rule5, p, 'header-writer', f'private helper called only from the known writers; writes {sorted(kinds)} header(s) on their behalf', f'{b.file}:{b.line}', nontrivial=False)
         else:
-            run.violation(rule5, p, 'header-writer', f'this function writes a {sorted(kinds)} container header but is not one of the writers whose output is proven canonical '
-                          '(measured lengths, ordered unique keys, exact re-wrap): its output escapes the induction over operation chains', f'{b.file}:{b.line}')
+            run.undecided(rule5, p, 'header-writer', f'this function writes a {sorted(kinds)} container header and is not one of the writers whose output the other rules cover '
+                          '(measured lengths, ordered unique keys, exact re-wrap), nor a private helper of one: its output is outside what this check decides', f'{b.file}:{b.line}')
     # object headers: the keys that follow must come from an ordered-map iteration
     for p, kinds in sorted(hw.items()):
         if 'OBJECT' not in kinds:
@@ -322,26 +328,42 @@ def r07_3_5(ctx, run, rule3='R07.3', rule5='R07.5'):
                       or "btree_map::Iter<'_, &str" in l['ty'].get('s', '') or 'btree_map::IntoIter<&str' in l['ty'].get('s', '') for l in b.locals)
         other_iter = [canon(callee_name(t)) for _, t in b.calls() if canon(callee_name(t)).endswith(('slice::iter', 'Vec::iter', 'VecDeque::iter')) ]
         # the loop that writes key bytes: extend_from_slice(str::as_bytes(key)) where key comes from the map iteration
-        ok = bool(maps) and key_str
-        ex = Expr(b, expand_named=True)
-        key_writes = 0
-        bad_src = []
-        for bb, t in b.calls():
-            if called(callee_name(t), 'Vec::extend_from_slice') and len(t['args']) == 2:
-                a = ex.operand(t['args'][1])
-                if any(x[0] == 'call' and canon(x[1]).endswith(('str::as_bytes', 'String::as_bytes')) for x in walk(a)):
-                    key_writes += 1
-                    src_ok = any(x[0] == 'call' and 'btree_map' in x[1] and canon(x[1]).endswith('Iterator::next') for x in walk(a))
-                    if not src_ok:
-                        bad_src.append(f"{t.get('file')}:{t.get('line')}")
+        def key_writes_of(body):
+            ex_ = Expr(body, expand_named=True)
+            kw, bad_ = 0, []
+            for bb, t in body.calls():
+                if called(callee_name(t), 'Vec::extend_from_slice') and len(t['args']) == 2:
+                    a = ex_.operand(t['args'][1])
+                    if any(x[0] == 'call' and canon(x[1]).endswith(('str::as_bytes', 'String::as_bytes')) for x in walk(a)):
+                        kw += 1
+                        src_ok = any(x[0] == 'call' and 'btree_map' in x[1] and canon(x[1]).endswith('Iterator::next') for x in walk(a))
+                        if not src_ok:
+                            bad_.append(f"{t.get('file')}:{t.get('line')}")
+            return kw, bad_
+        key_writes, bad_src = key_writes_of(b)
+        via = ''
+        if key_writes == 0:
+            # the key phase may live in a private helper that is handed the map
+            for bb, t in b.calls():
+                cn = callee_name(t)
+                cb = f.bodies.get(cn)
+                if cb is not None and cb.vis == 'private' and any('BTreeMap' in str(cb.local_ty(i).get('s', '')) for i in range(1, cb.argc + 1)):
+                    kw, bad_ = key_writes_of(cb)
+                    if kw:
+                        key_writes += kw
+                        bad_src += bad_
+                        via = f' (in helper {cn.split("::")[-1]})'
         loc = f'{b.file}:{b.line}'
-        if ok and key_writes and not bad_src:
-            run.proved(rule3, p, 'object-keys', f'key bytes are written from a BTreeMap iteration (byte-lexicographic order, no duplicates): {KEY_SOURCES.get(p, "ordered map")}', loc)
+        if key_writes and not bad_src and (via or (bool(maps) and key_str)):
+            run.proved(rule3, p, 'object-keys', f'key bytes are written from a BTreeMap iteration (byte-lexicographic order, no duplicates){via}: {KEY_SOURCES.get(p, "ordered map")}', loc)
         elif key_writes == 0 and p.endswith('object_keys'):
             continue
-        else:
+        elif bad_src:
             run.violation(rule3, p, 'object-keys', 'this function writes an object header, but the key bytes it emits do not come from an ordered-map (BTreeMap) iteration'
-                          + (f' (key bytes written at {bad_src})' if bad_src else '') + ': keys may be unsorted or duplicated, which is not canonical JSONB', loc)
+                          + f' (key bytes written at {bad_src})' + ': keys may be unsorted or duplicated, which is not canonical JSONB', loc)
+        else:
+            run.undecided(rule3, p, 'object-keys', 'this function writes an object header, but no write of key bytes was found in it or in a private helper it hands an ordered map to: '
+                          'where the keys come from is not decided', loc)
 
 
 # ------------------------------------------------------------------ R07.4 selector positions and writers
